@@ -251,6 +251,9 @@ def run(ctx):
     manifest_keys(ctx)
     numbers_skipped_whole(ctx)
     rescan_keeps_mode(ctx)
+    directives_end_with_the_line(ctx)
+    skipper_steps_over_literals(ctx)
+
 
 def manifest_keys(ctx):
     """R09.3: #ifdef / defined() / expansion look a macro up by its bare name.  A freshly made CPPManifest parses that
@@ -377,3 +380,87 @@ def rescan_keeps_mode(ctx):
         ok = any((strip_casts(peel(a)) or {}).get("d") == md for a in c.get("a", []))
         ctx.ob("R09.5", "expand_manifests|expand#%d|forwards-mode" % i, ok, fn.loc(c), "manifest->expand(...) receives the mode")
 
+
+
+def _conjuncts(cond):
+    n = peel(cond)
+    if n is not None and n.get("k") == "bin" and n.get("op") == "&&":
+        return _conjuncts(n["x"]) + _conjuncts(n["y"])
+    return [n]
+
+
+def _ne_const(cond, value):
+    """True if `cond` has a top-level conjunct `<expr> != value`."""
+    for a in _conjuncts(cond):
+        c = G.cmp_atom(a)
+        if c and c[0] == "!=" and (const_int(c[2]) == value or const_int(c[1]) == value):
+            return True
+    return False
+
+
+def directives_end_with_the_line(ctx):
+    """R09.6: a directive is one line ([cpp.pre]/1); `#` alone on a line is a null directive.  The scanners that run
+    between the `#` and the directive name must therefore not cross a newline: skip_whitespace() does, so neither
+    process_directive nor the skipper may call it, and every blank-skipping loop of the three directive scanners stops at
+    '\\n'.  (F-C09b: `#` / `#define X 1` lost the define.)"""
+    db = ctx.db
+    ctx.rule("R09.6", "the directive scanners (process_directive, skip_false_if_block, get_preprocessor_command) do not cross the end of the line: no skip_whitespace() call, and every loop that skips isspace() characters also tests c != '\\n'")
+    n_loops = 0
+    for short in ("process_directive", "skip_false_if_block", "get_preprocessor_command"):
+        fn = db.fn(P + short)
+        sw = [c for c in fn.walk() if c.get("k") == "call" and callee_short(c) == "skip_whitespace"]
+        ctx.ob("R09.6", "%s|no-skip_whitespace" % short, not sw, fn.loc(sw[0]) if sw else fn.loc(),
+               "skip_whitespace() (which crosses line ends) is %scalled while a directive line is scanned" % ("" if sw else "not "))
+        loops = [lp for lp in fn.walk() if lp.get("k") in ("while", "for", "do")
+                 and any(y.get("k") == "call" and callee_short(y) == "isspace" for y in walk(lp.get("c") or {}))]
+        for i, lp in enumerate(loops):
+            n_loops += 1
+            ok = _ne_const(lp["c"], 10)
+            ctx.ob("R09.6", "%s|blank-loop#%d|stops-at-newline" % (short, i), ok, fn.loc(lp), "loop over isspace() characters: `%s`" % show(lp["c"])[:80])
+    ctx.floor("R09.6", "blank-skipping loops in the directive scanners", n_loops, 3)
+
+
+def skipper_steps_over_literals(ctx):
+    """R09.7: the text of a skipped group is still a sequence of preprocessing tokens ([cpp.cond]/6: "tokens are
+    processed only so far as to keep track of nested conditionals"); a comment opener inside a string or character
+    literal is not a comment.  (F-C09c: `#if 0` / `s = "/*";` / `#endif` swallowed the rest of the file.)"""
+    db = ctx.db
+    ctx.rule("R09.7", "skip_false_if_block has a branch on c == '\"' || c == '\\'' that consumes the literal with get() only (never skip_comment()) up to the matching quote or the end of the line, stepping over backslash escapes")
+    sk = db.fn(P + "skip_false_if_block")
+    found = None
+    for node in sk.walk():
+        if node.get("k") != "if":
+            continue
+        consts = set()
+        for atom, _ in _disjuncts(node["c"]):
+            c = G.cmp_atom(atom)
+            if c and c[0] == "==":
+                for x in (c[1], c[2]):
+                    if const_int(x) is not None:
+                        consts.add(const_int(x))
+        if {34, 39} <= consts:
+            found = node
+            break
+    ctx.ob("R09.7", "skip_false_if_block|literal-branch", found is not None, sk.loc(found) if found else sk.loc(),
+           "a branch on both quote characters %s" % ("exists" if found else "is missing: literals in skipped text are scanned for comments"))
+    if found is None:
+        return
+    loops = [lp for lp in walk(found["then"]) if lp.get("k") in ("while", "for", "do")]
+    good = None
+    for lp in loops:
+        calls = [callee_short(c) for c in walk(lp.get("body") or {}) if c.get("k") == "call" and c.get("f", "").startswith(P)]
+        calls += [callee_short(c) for c in walk(lp.get("c") or {}) if c.get("k") == "call" and c.get("f", "").startswith(P)]
+        # terminates at the quote (a != test against a non-constant, i.e. the remembered quote, or against both quotes), at \n and EOF
+        cmps = [G.cmp_atom(a) for a in _conjuncts(lp["c"])]
+        ne_quote = any(c and c[0] == "!=" and ((const_int(c[1]) is None and const_int(c[2]) is None) or const_int(c[2]) in (34, 39)) for c in cmps)
+        if "get" in calls and "skip_comment" not in calls and ne_quote and _ne_const(lp["c"], 10) and _ne_const(lp["c"], -1):
+            good = lp
+    ctx.ob("R09.7", "skip_false_if_block|literal-branch|consumed-raw", good is not None, sk.loc(good or found),
+           "the literal's characters are read with get() until the quote, the end of the line or EOF, without looking for comments")
+    if good is None:
+        return
+    esc = [n for n in walk(good.get("body") or {}) if n.get("k") == "if"
+           and any((G.cmp_atom(a) or [None])[0] == "==" and 92 in (const_int(G.cmp_atom(a)[1]), const_int(G.cmp_atom(a)[2])) for a in _conjuncts(n["c"]))
+           and any(c.get("k") == "call" and callee_short(c) == "get" for c in walk(n["then"]))]
+    ctx.ob("R09.7", "skip_false_if_block|literal-branch|escapes", bool(esc), sk.loc(esc[0]) if esc else sk.loc(good),
+           "a backslash inside the literal takes the next character with it%s" % ("" if esc else " - NOT: \"\\\"/*\" would open a comment"))
